@@ -124,6 +124,37 @@ func ZZ_C15_select() {
 	nondet.Fact("antiAffinity", withZones)
 	// "if fewer valid nodes exist the reconcile reports an error instead of silently running a smaller canary"
 	nondet.Assert("C15.error-when-too-few", nondet.Implies(nValid < replicas, err != nil))
+	// "their number reaches spec.strategy.canary.replicas": when enough valid nodes exist (and, with
+	// anti-affinity keys, when each value's share ceil(replicas/#values) leaves room for them) the
+	// selection succeeds
+	feasible := nValid >= replicas
+	if withZones {
+		zoneSet := map[string]bool{}
+		for _, n := range nodes {
+			if n.selected {
+				zoneSet[n.zone] = true
+			}
+		}
+		if len(zoneSet) > 0 {
+			share := (replicas + len(zoneSet) - 1) / len(zoneSet)
+			room := 0
+			for z := range zoneSet {
+				v := 0
+				for _, n := range nodes {
+					if n.zone == z && n.selected && !n.tainted {
+						v++
+					}
+				}
+				if v > share {
+					v = share
+				}
+				room += v
+			}
+			feasible = room >= replicas
+		}
+	}
+	nondet.Fact("feasible", feasible)
+	nondet.Assert("C15.reaches-replicas-when-possible", nondet.Implies(feasible, err == nil))
 	if err != nil {
 		nondet.Observe("error", true)
 		nondet.Reach("C15.too-few", nValid < replicas)
